@@ -339,13 +339,13 @@ fn log_view(log: &Arc<Mutex<ConcLog>>, plan: &Plan, client: usize, idx: usize, i
     }
 }
 
-fn client_body(client: usize, plan: Arc<Plan>, db: Arc<DB>, out: Shared, log: Arc<Mutex<ConcLog>>, groups: Arc<Vec<Vec<usize>>>) {
+fn client_body(client: usize, plan: Arc<Plan>, db: Arc<DB>, out: Shared, log: Arc<Mutex<ConcLog>>, groups: Arc<Vec<Vec<usize>>>, part: (usize, usize)) {
     let ops = &plan.clients[client];
     let key = |k: usize| plan.keys[k % plan.keys.len()].clone();
     let mut snaps: BTreeMap<usize, SnapSlot> = BTreeMap::new();
     let mut iters: BTreeMap<usize, IterSlotC> = BTreeMap::new();
     let mut dead = false;
-    for (idx, op) in ops.iter().enumerate() {
+    for (idx, op) in ops.iter().enumerate().skip(part.0).take(part.1.saturating_sub(part.0)) {
         if dead || rt::is_poisoned() {
             break;
         }
@@ -725,14 +725,53 @@ pub fn body(case: &Case, out: &Shared) {
             }
         }
     }
-    let db = Arc::new(db);
+    let mut db = Arc::new(db);
     let log: Arc<Mutex<ConcLog>> = Arc::new(Mutex::new(ConcLog::default()));
     let groups = Arc::new(groups_of(&plan));
-    if ok {
+    // In a fifth of the runs ("reopen_split") every client executes the first half of its program,
+    // the database is closed (whatever background work is in flight) and reopened on the same
+    // files, and the clients go on with the second half: recovery sits in the middle of the
+    // concurrent history, whose oracles do not care (no operation is in flight across the reopen).
+    let split = case.params.get("reopen_split").copied().unwrap_or(0) != 0;
+    let parts: Vec<u8> = if split { vec![0, 1] } else { vec![2] };
+    for part in parts {
+        if !ok || rt::is_poisoned() {
+            break;
+        }
+        if part == 1 {
+            match Arc::try_unwrap(db) {
+                Ok(d) => {
+                    let _ = call("drop", move || drop(d));
+                }
+                Err(_) => {
+                    // a client leaked its handle (only after a panic): the run's verdict is decided
+                    ok = false;
+                    return;
+                }
+            }
+            let opts = options(fs.clone(), &plan.opens[0], false);
+            match call("open", || DB::open(opts)) {
+                Called::Ok(Ok(d)) => {
+                    db = Arc::new(d);
+                    with_out(out, |o| o.stats.bump("reopen_in_the_middle_of_a_concurrent_run", 1));
+                }
+                Called::Ok(Err(e)) => {
+                    push_finding(out, Finding::new(&["C01", "C02"], "reopen-failed", &err_signature(&e), format!("close + reopen between two halves of a concurrent run: DB::open returned {:?}", e), None));
+                    return;
+                }
+                Called::Panicked { .. } => return,
+            }
+        }
         let mut handles = vec![];
         for c in 0..plan.clients.len() {
+            let n = plan.clients[c].len();
+            let range = match part {
+                0 => (0, n / 2),
+                1 => (n / 2, n),
+                _ => (0, n),
+            };
             let (plan2, db2, out2, log2, groups2) = (Arc::clone(&plan), Arc::clone(&db), Arc::clone(out), Arc::clone(&log), Arc::clone(&groups));
-            let h = rt::thread::Builder::new().name(format!("client-{}", c)).spawn(move || client_body(c, plan2, db2, out2, log2, groups2)).expect("spawn client");
+            let h = rt::thread::Builder::new().name(format!("client-{}", c)).spawn(move || client_body(c, plan2, db2, out2, log2, groups2, range)).expect("spawn client");
             handles.push(h);
         }
         for h in handles {
